@@ -1,0 +1,31 @@
+//go:build verif
+
+package pppoe
+
+// Verification accessors for property C20 (session-id wrap-around). Compiled only with -tags verif.
+
+// VerifSetNextID fast-forwards the session-id counter so that wrap-around is reachable without
+// creating 65535 sessions first.
+func (m *SessionManager) VerifSetNextID(id uint16) {
+	m.mu.Lock()
+	m.nextID = id
+	m.mu.Unlock()
+}
+
+// VerifNextID returns the current value of the session-id counter.
+func (m *SessionManager) VerifNextID() uint16 {
+	m.mu.RLock()
+	defer m.mu.RUnlock()
+	return m.nextID
+}
+
+// VerifMACIndex returns a copy of the MAC -> session id index.
+func (m *SessionManager) VerifMACIndex() map[string]uint16 {
+	m.mu.RLock()
+	defer m.mu.RUnlock()
+	out := make(map[string]uint16, len(m.macToSession))
+	for k, v := range m.macToSession {
+		out[k] = v
+	}
+	return out
+}
